@@ -8,6 +8,8 @@ import (
 	"fmt"
 	"os"
 	"strconv"
+	"sync/atomic"
+	"time"
 
 	seccomp "github.com/elastic/go-seccomp-bpf"
 	"github.com/elastic/go-seccomp-bpf/arch"
@@ -22,6 +24,7 @@ func init() {
 	arch.VerifPoint = sched.Point
 	seccomp.VerifAtomicEnter, seccomp.VerifAtomicExit = sched.AtomicEnter, sched.AtomicExit
 	arch.VerifAtomicEnter, arch.VerifAtomicExit = sched.AtomicEnter, sched.AtomicExit
+	seccomp.VerifBlockUntil, arch.VerifBlockUntil = sched.BlockUntil, sched.BlockUntil
 	childCmds["c13explore"] = c13Explore
 }
 
@@ -63,6 +66,22 @@ func c13Explore(args []string) {
 		return
 	}
 	x := &sched.Explorer{Bound: bound, Setup: sc, Shard: shard, NShards: nshards, Outcomes: out.Outcomes}
+	// watchdog: library code that blocks the operating system thread outside a scheduling point (a channel operation, a
+	// lock form the instrumenter does not know) would hang the cooperative scheduler; give up instead of hanging
+	go func() {
+		last := int64(-1)
+		for {
+			time.Sleep(20 * time.Second)
+			cur := atomic.LoadInt64(&x.Execs)
+			if cur == last {
+				out.Execs, out.Capped, out.Stuck = cur, true, true
+				b, _ := json.Marshal(out)
+				os.Stdout.Write(append(b, '\n'))
+				os.Exit(0)
+			}
+			last = cur
+		}
+	}()
 	x.Violation = func(choices []int, schedule []string, what string) {
 		if len(out.Viol) < 5 {
 			out.Viol = append(out.Viol, c13Viol{What: what, Choices: choices, Schedule: schedule})
